@@ -13,11 +13,11 @@ ALLOWED = {
     ("Persist", "handle"): {"TempIn(Join(Entry,'tmp'))": "cache"},
     ("Persist", "dst"): {"Content(Entry)": "cache"},
     ("WriteData", "handle"): {"TempIn(Join(Entry,'tmp'))": "cache", "Mmap(TempIn(Join(Entry,'tmp')))": "cache",
-                              "Handle(Bucket(Entry))": "cache"},
+                              "Handle(Bucket(Entry))": "cache", "Handle(Entry)": "dest"},
     ("Fallocate", "handle"): {"TempIn(Join(Entry,'tmp'))": "cache"},
     ("HandleMut", "handle"): {"TempIn(Join(Entry,'tmp'))": "cache"},     # set_len on the private temp file
-    ("Open", "path"): {"Bucket(Entry)": "cache"},
-    ("RemoveFile", "path"): {"Content(Entry)": "cache", "Bucket(Entry)": "cache"},
+    ("Open", "path"): {"Bucket(Entry)": "cache", "Entry": "dest"},
+    ("RemoveFile", "path"): {"Content(Entry)": "cache", "Bucket(Entry)": "cache", "Entry": "dest"},
     ("RemoveDirAll", "path"): {"Child(Entry)": "cache"},
     ("Copy", "src"): {"Content(Entry)": "cache"},
     ("Copy", "dst"): {"Entry": "other"},
@@ -100,6 +100,12 @@ def check_effect_confined(w, fw, e, rep, cfg, rule, prop_prefix):
                 continue
             want = allowed[sh]
             got = fw.entry_role(lf_c) if lf_c[0] == "Entry" else lf_c[0]
+            if want == "dest":
+                # "the destination explicitly given to an extraction call": a later path parameter of an entry point
+                # that is not a link_to call (whose second path is the link target, never to be written: C19)
+                want = "other"
+                if got == "other" and lf_c[1] in w.roles.symlink_reach:
+                    got = "link-target"
             if got != want:
                 ok_all = False
                 rep.violation("%s:%s:%s:%s:root-%s" % (prop_prefix, fn_key(lf), e.kind, role, got),
